@@ -159,11 +159,13 @@ func (s *TableAggregator) Trim(predicate func(col, row string, val int64) bool) 
 
 		removeAllInCol := true
 		for rowName, row := range s.rows {
-			if predicate(colName, rowName, row.cols[colName]) {
-				delete(row.cols, colName)
-				trimmed++
-			} else {
-				removeAllInCol = false
+			if val, hasCell := row.cols[colName]; hasCell { // only cells that exist can be trimmed, or keep a column alive
+				if predicate(colName, rowName, val) {
+					delete(row.cols, colName)
+					trimmed++
+				} else {
+					removeAllInCol = false
+				}
 			}
 
 			if len(row.cols) == 0 {
